@@ -11,8 +11,8 @@ import operator
 
 from vlib import core
 
-IMPORTS = ("From Coq Require Import List Arith Bool.\nFrom RV Require Import model.Graph run.RunC03.\n"
-           "Import ListNotations.\nOpen Scope nat_scope.")
+IMPORTS = ("From Coq Require Import List Arith Bool.\nFrom RV Require Import base.Num model.Graph run.RunC03.\n"
+           "Import ListNotations.\nClose Scope Q_scope.\nOpen Scope nat_scope.")
 TRUSTED = ["networkx (is_directed_acyclic_graph, is_isomorphic) is used by the implementation oracle only, never by the proof",
            "node ids stand for Python object identity; the harness maps objects to ids with a dict keyed by id(obj) "
            "(objects kept alive for the whole case)"]
@@ -20,8 +20,8 @@ ASSUMPTIONS = ["operands are Node / Concat instances and non-frozen Models with 
                "mismatch between already-initialised nodes (nodes are never initialised in the scenarios)",
                "explicit Model(nodes, edges) scenarios use duplicate-free node lists and edges whose endpoints are listed"]
 
-CAT_BASE = 1000      # ids of automatically inserted Concat nodes start here
-FALLBACK = 100000    # fallback naming base used by the model for constructions that raised (nothing to observe)
+CAT_BASE = 100      # ids of automatically inserted Concat nodes start here
+FALLBACK = 1000    # fallback naming base used by the model for constructions that raised (nothing to observe)
 LABELS = ["a", "b", "ab", "ba", "c", "B", "_x", "z1", "z10", "z2", "aa", "Zz"]
 _uid = [0]
 
@@ -209,8 +209,9 @@ def corner_cases():
     cases += [
         {"kind": "graph", "pool": p4[:1], "expr": ["graph", [0], [[0, 0]]]},
         {"kind": "graph", "pool": p4[:1], "expr": ["graph", [0], []]},
-        {"kind": "graph", "pool": p4[:2], "expr": ["graph", [0, 1], [[0, 1], [0, 1]]]},
-        {"kind": "graph", "pool": p4[:3], "expr": ["graph", [0, 1, 2], [[0, 2], [1, 2], [0, 2]]]},
+        # duplicated edges in an explicit edge LIST: outside the property (edge sets), model/implementation correspondence only
+        {"kind": "graph", "pool": p4[:2], "expr": ["graph", [0, 1], [[0, 1], [0, 1]]], "corr_only": True},
+        {"kind": "graph", "pool": p4[:3], "expr": ["graph", [0, 1, 2], [[0, 2], [1, 2], [0, 2]]], "corr_only": True},
         {"kind": "expr", "pool": p4[:3] + [{"name": "c", "cat": True}], "expr": ["link", [N(0), N(1), N(2)], [N(3)], True, False]},
         {"kind": "expr", "pool": p4, "expr": ["and", fan(), L(L(N(0), N(1)), N(3))]},
         {"kind": "expr", "pool": p4, "expr": ["and", fan(), fan()]},
@@ -221,22 +222,29 @@ def corner_cases():
     return cases
 
 
-def gen_tree(rng, n, depth, top=True):
-    if not top and (depth == 0 or rng.random() < 0.35):
+def gen_tree(rng, n, depth, top=True, st=None):
+    """random expression over nodes 0..n-1; leaves prefer not-yet-used nodes (otherwise most expressions are cyclic)"""
+    st = st if st is not None else {"next": 0}
+
+    def leaf():
+        if st["next"] < n and rng.random() < 0.7:
+            st["next"] += 1
+            return ["n", st["next"] - 1]
         return ["n", rng.randrange(n)]
+    if not top and (depth == 0 or rng.random() < 0.35):
+        return leaf()
     r = rng.random()
     if r < 0.6:
         def side():
             if rng.random() < 0.3:
                 k = rng.randint(2, 3)
-                return [gen_tree(rng, n, max(0, depth - 2), False) if rng.random() < 0.25 else ["n", rng.randrange(n)]
-                        for _ in range(k)], True
-            return [gen_tree(rng, n, depth - 1, False)], False
+                return [gen_tree(rng, n, max(0, depth - 2), False, st) if rng.random() < 0.25 else leaf() for _ in range(k)], True
+            return [gen_tree(rng, n, depth - 1, False, st)], False
         ls, lseq = side()
         rs, rseq = side()
         return ["link", ls, rs, lseq, rseq]
-    a = gen_tree(rng, n, depth - 1, False)
-    b = gen_tree(rng, n, depth - 1, False)
+    a = gen_tree(rng, n, depth - 1, False, st)
+    b = gen_tree(rng, n, depth - 1, False, st)
     if r < 0.88 or a[0] == "n":
         return ["and", a, b]
     return ["iand", a, b]
@@ -245,7 +253,7 @@ def gen_tree(rng, n, depth, top=True):
 def expr_cases(rng, count):
     out = []
     for _ in range(count):
-        n = rng.randint(2, 7)
+        n = rng.randint(2, 10)
         out.append({"kind": "expr", "pool": pool_of(rng, n, cats=0.08), "expr": gen_tree(rng, n, rng.randint(1, 4))})
     return out
 
@@ -512,7 +520,7 @@ def correspondence(ctx):
     return {"evaluations": len(cases), "distinct_nontrivial": len(nt),
             "rule": "every labelled digraph without self-loops and with >=1 edge on 2-3 nodes (quick) / 1-4 nodes + a 5-node sample "
                     "(thorough), each built twice: Model(nodes, edges) and as merged 1-to-1 links (& / &=); hand-written corner "
-                    "cases; random expressions over 2-7 nodes with >>, link on lists, &, &= and user Concat nodes.  Non-trivial = "
+                    "cases; random expressions over 2-10 nodes with >>, link on lists, &, &= and user Concat nodes.  Non-trivial = "
                     "the denoted graph has an edge and is cyclic, has a fan-in or has two levels; distinct by (Concat flags, tree)",
             "samples": [keep[5], keep[len(keep) // 2], keep[-1]],
             "distribution": dist, "tolerance": "exact (sets of ids)",
@@ -527,6 +535,7 @@ def oracle(ctx, scale=1):
         cases = graph_cases(rng, [2, 3]) + corner_cases() + expr_cases(rng, 300 * scale)
     laws = law_cases(rng, ctx.n(150, 1500) * scale)
     out, dist = [], {}
+    cases = [c for c in cases if not c.get("corr_only")]
     for c in cases:
         v = _judge(c)
         if v:
